@@ -122,7 +122,7 @@ def run(ctx: vlib.Ctx):
     ctx.theorems("props/C17_typeref.vo", ["C17_type_ident_local", "C17_type_ident_nonlocal", "C17_type_ident_alias_is_text",
                                            "C17_type_ident_chain_partial", "C17_type_ident_chain_refuted", "C17_local_rendering_not_chain",
                                            "C17_typeref_sites_partial", "C17_typeref_sites_refuted", "C17_typeref_known_raw_witnesses",
-                                           "C17_collection_typerefs_are_identifiers", "C17_class_reference_is_chain", "C17_local_class_alias",
+                                           "C17_collection_typerefs_are_identifiers", "C17_generic_serializable_typerefs_are_identifiers", "C17_class_reference_is_chain", "C17_local_class_alias",
                                            "C17_clean_id_model_is_kernel", "C17_local_render_is_type_ident", "C17_local_alias_binding_partial",
                                            "C17_local_alias_binding_refuted"], kernels=["K42", "K44"])
     ctx.theorems("props/C17_imports.vo", ["C17_imports_cover_partial", "C17_imports_cover_refuted", "C17_visited_imports", "C17_chain_root_is_package",
